@@ -28,6 +28,9 @@ pub struct Dec {
 pub enum Exp {
     Ok(Value),
     Err,
+    /// the header's entries contradict each other (e.g. a digest whose length does not fit the recorded
+    /// algorithm): an error is fine; a value is fine only if it is exactly what the header stores
+    ErrOrStored(Value),
     NotJudged(&'static str),
 }
 
@@ -247,13 +250,19 @@ fn exp_file_entries(d: &Dec) -> Exp {
         Some(_) => return Exp::NotJudged("file digest algorithm tag of a non-standard type"),
     };
     let mut out = vec![];
+    let mut contradictory = false;
     for k in 0..n {
         let digest = if digests[k].is_empty() {
             Value::Null
         } else {
             match digest_hex_len(algo) {
                 Some(l) if l == digests[k].len() => json!({"hex": digests[k], "algo": algo}),
-                _ => return Exp::NotJudged("file digest whose length does not fit the recorded algorithm / unsupported algorithm"),
+                Some(_) => {
+                    // the length does not fit the recorded algorithm: an error, or the stored digest under the stored algorithm
+                    contradictory = true;
+                    json!({"hex": digests[k], "algo": algo})
+                }
+                None => return Exp::NotJudged("unsupported file digest algorithm"),
             }
         };
         out.push(json!({
@@ -261,6 +270,9 @@ fn exp_file_entries(d: &Dec) -> Exp {
             "mtime": mtimes[k], "size": sizes[k], "flags": flags[k], "linkto": links[k],
             "caps": caps.as_ref().map(|c| c[k].clone()), "ima": ima.as_ref().map(|c| c[k].clone()),
         }));
+    }
+    if contradictory {
+        return Exp::ErrOrStored(Value::Array(out));
     }
     Exp::Ok(Value::Array(out))
 }
@@ -453,6 +465,8 @@ pub fn judge(sub: &str, x: &[u8], which: Option<&[&str]>, rank: u64, case: &dyn 
             (Exp::NotJudged(w), _) => acc.count(&format!("not judged: {}", w)),
             (Exp::Ok(e), Ok(g)) if e == g => judged += 1,
             (Exp::Err, Err(_)) => judged += 1,
+            (Exp::ErrOrStored(_), Err(_)) => judged += 1,
+            (Exp::ErrOrStored(e), Ok(g)) if e == g => judged += 1,
             _ => {
                 let kind = match (&exp, &got) {
                     (Exp::Ok(_), Ok(_)) => "wrong-value",
